@@ -132,7 +132,7 @@ def _alarm(*_):
     raise HarnessTimeout()
 
 
-def run_ref(p: Prog, inp: Inputs, oracle=None, solver_timeout_ms=20000):
+def run_ref(p: Prog, inp: Inputs, oracle=None, solver_timeout_ms=1000):
     ev = refevm.RefEVM(block=BLOCK, solver_timeout_ms=solver_timeout_ms, loop_bound=p.loop_bound, max_paths=p.ref_paths)
     accounts = {a: refevm.Account(c, refevm.empty_storage(), refevm.empty_storage()) for a, c in p.contracts.items()}
     bal = z3.K(z3.BitVecSort(160), bv(0))
